@@ -30,6 +30,7 @@ type Engine struct {
 	FuncDecls map[*types.Func]*ast.FuncDecl
 	AllFuncs  map[string]*ssa.Function // by String()
 	storedGlobals map[*ssa.Global]bool
+	RefineDrop     func(postName string) bool // refinement jobs: concrete postconditions that must not be assumed (unclaimed by the running check)
 	CtxContracts   map[string]map[string]*Contract // key -> package of the contract file -> contract (only for keys with several)
 	ctxPkg         string                           // package of the function under verification
 	ghostScanned   bool
